@@ -233,6 +233,7 @@ def run(prog, chk):
     summ = {X + "skipSpace": {"min_advance": 0}, X + "readToken": {"min_advance": 1}, X + "parseText": {"min_advance": 0},
             X + "parseElement": {"min_advance": 1}}
     rt, sk, pt, pa, pe = xfn(prog, X + "readToken"), xfn(prog, X + "skipSpace"), xfn(prog, X + "parseText"), xfn(prog, X + "parse", 2), xfn(prog, X + "parseElement")
+    prolog_token_start(chk, "C16.g", pa)
     for f, nm in ((rt, "readToken"), (sk, "skipSpace"), (pt, "parseText"), (pa, "parse")):
         ca = CursorAnalysis(f, ["this->pos.pos", "end"], summ, "this->pos")
         extra = set()
@@ -399,3 +400,39 @@ def run(prog, chk):
                     chk.bad("C16.f", f, "line-break-skipped-uncounted", f.where(c),
                             "the scan stops at CR/LF and steps over the byte (pos.pos = end + 1) without updating pos.line/pos.lineStart: error columns after a "
                             "multi-line processing instruction can exceed the line")
+
+
+def prolog_token_start(chk, rid, pa):
+    """typestate: the test that recognises a processing instruction in the prolog (`*pos.pos == '<' && pos.pos[1] == '?'`) is only
+    evaluated at a token start, i.e. white space has been skipped since the cursor was last moved (and since the entry)"""
+    chk.rule(rid, "MPT/typestate: every path from the entry or from a cursor assignment to the evaluation of the prolog's processing-instruction "
+                  "test passes skipSpace() (white space, line breaks and comments between two processing instructions are allowed)", floor=2)
+    conds = []
+    for b in pa.blocks.values():
+        c = b.get("cond")
+        if c is not None and re.search(r"pos\.pos\[1\] == '\?'|\*this->pos\.pos == '<'", q.no_casts(pa.r(c))):
+            conds.append(b["id"])
+    if not conds:
+        raise AnalysisBroken("Xml::Private::parse: the processing-instruction test of the prolog was not found")
+    head = max(conds)          # the first-evaluated operand of the loop condition (clang numbers blocks from the end)
+    sk = [c for c in q.calls(pa) if pa.nodes[c].get("callee", "").endswith("::skipSpace")]
+    skp = q.pos_of(pa, sk)
+    target = {(head, 0)}
+    where = "%s:%s" % (pa.file, pa.line)
+    p0 = pa.find_path(pa.entry_pos(), target, avoid=skp, after_src=False)
+    if p0 is None:
+        chk.ok(rid, pa, "leading white space skipped before the first test", where, "MPT from the entry", evals=1)
+    else:
+        chk.bad(rid, pa, "prolog-test-before-skipspace:entry", where, "the prolog test is reached from the entry without skipSpace(): leading white space "
+                "or a comment in front of `<?xml` makes the document fail", pa.path_lines(p0))
+    moves = [s for s in q.stores(pa) if q.no_casts(pa.r(s.lhs)) == "this->pos.pos"]
+    moves = [s for s in moves if pa.node_pos(s.node) is not None and pa.find_path(pa.node_pos(s.node), target) is not None]
+    for s in moves:
+        p = pa.find_path(pa.node_pos(s.node), target, avoid=skp)
+        if p is None:
+            chk.ok(rid, pa, "skipSpace between `%s` and the next prolog test" % pa.r(s.node)[:40], pa.where(s.node), "MPT", evals=1)
+        else:
+            chk.bad(rid, pa, "prolog-test-before-skipspace:" + q.no_casts(pa.r(s.rhs))[:30], pa.where(s.node),
+                    "after `%s` the processing-instruction test is evaluated again without skipSpace(): white space, a line break or a comment "
+                    "between two processing instructions ends the prolog early and the second `<?...?>` is parsed as the root element" % pa.r(s.node)[:40],
+                    pa.path_lines(p))
